@@ -357,9 +357,9 @@ func main() {
 		"While a recorded defect (goto to a function-top-level label; range key used as loop counter; select send of an untyped constant; range-string '=' into an outer variable; select ok on a closed channel; go arguments not copied) is present on the tree its exact input is replayed first and the generators avoid that input class.")
 	wd := vh.NewWatchdog(rep, 60*time.Second)
 
-	maxDepth, nprog := 5, 360
+	maxDepth, nprog, nfocus := 5, 360, 100
 	if a.Thorough() {
-		maxDepth, nprog = 8, 6000
+		maxDepth, nprog, nfocus = 8, 6000, 1500
 	}
 	if a.N > 0 {
 		nprog = a.N
@@ -384,8 +384,20 @@ func main() {
 	} else {
 		for i := 0; i < nprog; i++ {
 			ext := rng.Chance(45, 100)
-			p := genProgram(rng.Fork(), 2+rng.Intn(maxDepth-1), ext, avoid)
+			p := genProgram(rng.Fork(), 2+rng.Intn(maxDepth-1), ext, avoid, "")
 			p.Idx = i
+			progs = append(progs, p)
+		}
+		// focused programs: jumps that leave 0..8 variable-declaring scopes at once (MiniGo: also Coq cases);
+		// typed expression switches mixing constant and non-constant cases (differential only)
+		for i := 0; i < nfocus; i++ {
+			p := genProgram(rng.Fork(), 2+rng.Intn(3), false, avoid, "deepjump")
+			p.Idx = len(progs)
+			progs = append(progs, p)
+		}
+		for i := 0; i < nfocus; i++ {
+			p := genProgram(rng.Fork(), 2+rng.Intn(3), true, avoid, "tswitch")
+			p.Idx = len(progs)
 			progs = append(progs, p)
 		}
 	}
